@@ -45,9 +45,9 @@ class PanderaConfig:
 
 
 def _config_from_env_vars():
-    validation_enabled = (
-        os.environ.get("PANDERA_VALIDATION_ENABLED", None) == "True" or True
-    )
+    validation_enabled = os.environ.get(
+        "PANDERA_VALIDATION_ENABLED", "True"
+    ) in {"True", "1"}
     validation_depth = os.environ.get("PANDERA_VALIDATION_DEPTH", None)
     if validation_depth is not None:
         validation_depth = ValidationDepth(validation_depth)
